@@ -29,6 +29,7 @@ cp -r /repo/beyond /repo/tests $D/
 patch -s -p1 -d $D < $S/patch.diff || { rm -rf $D; exit 2; }
 (cd $D; PYTHONPATH=$D /venv/bin/python $S/demo.py >/dev/null 2>&1; echo "demo mutant exit=$?")
 for p in "$@"; do
-  BEYOND_REPO=$D PYVC_NO_EVIDENCE=1 /verif/check $p 2>&1 | grep "VIOLATION\|^C[0-9]*:\|UNDECIDED\|CHECKER" | cut -c1-220 | head -12
+  BEYOND_REPO=$D PYVC_NO_EVIDENCE=1 /verif/check $p > $D/out.txt 2>&1
+  grep "VIOLATION" $D/out.txt | cut -c1-220 | head -8; grep "UNDECIDED\|CHECKER" $D/out.txt | cut -c1-220 | head -4; grep "^C[0-9]*:" $D/out.txt | cut -c1-220
 done
 rm -rf $D
